@@ -122,6 +122,8 @@ Inductive ob :=
 | ORemove (p : path)
 | ORmdir (p : path)
 | OSameFileErr (p q : path)
+| OOpenRW (p : path)
+| OTruncate (n : nat)
 | OFail (cleanup : bool).   (* an injected OSError; cleanup = the failed call was os.remove/os.rmdir of the finally *)
 
 Inductive act :=
@@ -154,8 +156,10 @@ Inductive act :=
 | ASameFileAlias (p q : path)  (* os.path.samefile on another HARD LINK of q's inode: True.  Hard links are given
                                   statically (sc_aliases); entries of the path map are otherwise independent
                                   files, which is exact as long as nothing is written in place *)
-| AReleaseHeld (t : nat).      (* ExternalTensor.release() while the caller holds a live array from tensor.numpy():
+| AReleaseHeld (t : nat)      (* ExternalTensor.release() while the caller holds a live array from tensor.numpy():
                                   mmap.close() raises BufferError (reported as OtherError), the map stays open *)
+| AOpenRW (p : path)           (* open(p, "r+b"): a worker's own handle on the preallocated temporary file *)
+| ATruncate (n : nat).         (* file.truncate(n) on the open handle: preallocation, the gap reads as zeros *)
 
 Definition counted (a : act) : bool :=
   match a with
@@ -166,7 +170,7 @@ Definition counted (a : act) : bool :=
 Definition faultable (a : act) : bool :=
   match a with
   | AMkdtemp _ | AOpenW _ | AWrite _ | AWriteBuf | AClose | ACopymode _ _ | AReplace _ _
-  | ARemove _ | ARmdir _ => true
+  | ARemove _ | ARmdir _ | AOpenRW _ | ATruncate _ => true
   | _ => false
   end.
 
@@ -304,6 +308,22 @@ Definition sem (a : act) (s : st) : st * res unit :=
   | ASameFileNul p q => (log (OSameFileErr p q) s, Raise ValueError)
   | ASameFileAlias p q => (log (OSameFile p q true) s, Ok tt)
   | AReleaseHeld t => (log (ORelease t) s, Raise OtherError)
+  | AOpenRW p =>
+      let q := resolve fs p in
+      match lookup fs q with
+      | Some (File _ _) => (with_fd (log (OOpenRW p) s) (Some q) 0, Ok tt)
+      | _ => (log (OOpenRW p) s, Raise OSError)
+      end
+  | ATruncate n =>
+      match s_fd s with
+      | None => (log (OTruncate n) s, Raise ValueError)
+      | Some q =>
+          match lookup fs q with
+          | Some (File f m) =>
+              (with_fs (log (OTruncate n) s) (insert fs q (File (firstn n (f ++ repeat 0%N (n - length f))) m)), Ok tt)
+          | _ => (log (OTruncate n) s, Raise OSError)
+          end
+      end
   end.
 
 (* Exception kinds.  The shared enum (Base/Exn.v) reports everything outside the listed Exception classes
@@ -379,6 +399,8 @@ Record scn := {
   sc_cbbase : nat;                     (* global index of the first tensor of this file (sharded saves) *)
   sc_aliases : list path;              (* other hard links of the destination's inode (realpaths) *)
   sc_held : list nat;                  (* mapped external tensors of which the caller holds a live numpy view *)
+  sc_par : option nat;                 (* Some total: _write_parallel (max_workers > 1 and more than one tensor),
+                                          total = size the temporary file is preallocated to *)
 }.
 
 Fixpoint chunk_plan (fuel rel remaining c : nat) : list (nat * nat) :=
@@ -474,13 +496,39 @@ Definition plan_tail (fs : fsT) (tens : list tstate) (sc : scn) : list act :=
   ++ AExists dest :: (if exists_ fs dest then [ACopymode dest (tmpf_of sc dest)] else [])
   ++ [AReplace (tmpf_of sc dest) dest].
 
+(* the writer proper, from the creation of the temporary file to the last close of a handle on it *)
+Definition writer_serial (tens : list tstate) (sc : scn) (tmpf : path) : prog :=
+  PSeq (PActs [AOpenW tmpf])
+       (PTry (PActs (tensors_acts tens (sc_chunk sc) (sc_cb sc) (sc_cbbase sc) (sc_tensors sc)))
+             (PActs [AClose])).
+
+(* _write_parallel under the maximally serialised schedule (one task at a time, in submission order, all on one
+   worker): preallocate and close; the first task opens the worker's r+b handle after its callback; every later
+   task reuses it; the handle is closed in the finally.  Before the handle exists there is nothing to close, so
+   the finally-close is scoped from the open on.  (Other schedules: C09; here the code path matters.) *)
+Definition writer_parallel (tens : list tstate) (sc : scn) (tmpf : path) (total : nat) : prog :=
+  PSeq (PSeq (PActs [AOpenW tmpf]) (PTry (PActs [ATruncate total]) (PActs [AClose])))
+       (match sc_tensors sc with
+        | [] => PActs []
+        | (off0, sp0) :: r =>
+            PSeq (PActs (cb_acts (sc_cb sc) (sc_cbbase sc)))
+                 (PSeq (PActs [AOpenRW tmpf])
+                       (PTry (PActs (ASeek off0 :: tofile_acts tens (sc_chunk sc) sp0
+                                     ++ tensors_acts tens (sc_chunk sc) (sc_cb sc) (S (sc_cbbase sc)) r))
+                             (PActs [AClose])))
+        end).
+
+Definition writer (tens : list tstate) (sc : scn) (tmpf : path) : prog :=
+  match sc_par sc with
+  | Some total => writer_parallel tens sc tmpf total
+  | None => writer_serial tens sc tmpf
+  end.
+
 Definition plan_single (fs : fsT) (tens : list tstate) (sc : scn) : prog :=
   let dest := dest_of fs (sc_req sc) in
   let tmpf := tmpf_of sc dest in
   PSeq (PActs (plan_pre fs tens sc))
-   (PSeq (PTry (PSeq (PSeq (PActs [AOpenW tmpf])
-                           (PTry (PActs (tensors_acts tens (sc_chunk sc) (sc_cb sc) (sc_cbbase sc) (sc_tensors sc)))
-                                 (PActs [AClose])))
+   (PSeq (PTry (PSeq (writer tens sc tmpf)
                      (PActs (plan_tail fs tens sc)))
                (PActs [ARemove tmpf; ARmdir (sc_tmpd sc)]))
          (PActs (plan_post fs tens sc))).
@@ -567,6 +615,8 @@ Definition ob_eqb (a b : ob) : bool :=
   | ORemove p, ORemove p' => path_eqb p p'
   | ORmdir p, ORmdir p' => path_eqb p p'
   | OSameFileErr p q, OSameFileErr p' q' => path_eqb p p' && path_eqb q q'
+  | OOpenRW p, OOpenRW p' => path_eqb p p'
+  | OTruncate n, OTruncate n' => Nat.eqb n n'
   | OFail a1, OFail a2 => Bool.eqb a1 a2
   | _, _ => false
   end.
